@@ -100,3 +100,33 @@ def wrap(rng, frame, mode):
     if mode == 1:
         return 1, rtgen.rtap_single(0x2E, rng, flags=0x00) + frame
     return 1, rtgen.rtap_single(0x2E, rng, flags=0x10) + frame + struct.pack("<I", zlib.crc32(frame) & 0xFFFFFFFF)
+
+
+def wide(rng, q=True):
+    """inputs of 65536 bytes and more (a length, offset or count kept in 16 bits somewhere along the way wraps): returns
+    {"iter": [tag buffers], "mgmt": [(rt, frame)], "classify": [(rt, frame)]}"""
+    def chain(total):
+        b = bytearray()
+        while total - len(b) >= 2:
+            L = min(255, total - len(b) - 2)
+            b += bytes([rng.choice([1, 7, 45, 127, 221]), L]) + bytes(rng.randrange(256) for _ in range(L))
+        return bytes(b)
+    out = {"iter": [], "mgmt": [], "classify": []}
+    for total in ((65535, 65536, 65538) if q else (65534, 65535, 65536, 65537, 65538, 65536 + 257, 131072, 131075)):
+        c = chain(total)
+        out["iter"] += [c, c + bytes([3]), c + bytes([3, 1]), c + bytes([3, 1, 6]), c + bytes([48, 200, 1, 0])]
+    big = chain(65536 + 40)
+    rsn = el(48, rsn_body(rng, pairwise=[suite(IEEE, 4)], akms=[suite(IEEE, 2)]))
+    for st in ((8, 0, 5) if q else PARSABLE):
+        # SSID and channel before, channel and RSN element after 64 KiB of other elements
+        out["mgmt"].append((0, mgmt(rng, st, [el(0, b"wide"), el(3, [1]), big, el(3, [11]), rsn], privacy=True)))
+        out["mgmt"].append((0, mgmt(rng, st, [big, el(0, b"late"), el(3, [36]), rsn], privacy=True)))
+    fr = mgmt(rng, 8, [el(0, b"w"), big, el(3, [9])])
+    for mode in (1, 2):
+        out["mgmt"].append(wrap(rng, fr, mode))
+    for fc0 in (0x08, 0x88, 0x80, 0xb4):
+        body = bytes([fc0, rng.choice([0, 0x80])]) + bytes(rng.randrange(256) for _ in range(65536 + rng.choice([0, 22, 24, 30, 300])))
+        out["classify"].append((0, body))
+        out["classify"].append(wrap(rng, body, 1))
+        out["classify"].append(wrap(rng, body, 2))
+    return out
